@@ -95,11 +95,13 @@ pub fn explore<S: Subject>(s: &S, depth: usize) -> (Stats, Vec<Found<S::Op>>) {
                         } else {
                             st.merged += 1;
                         }
-                        // verdicts are properties of the state; report them once per state
+                        // findings may belong to the *transition* (raised while applying the
+                        // operation), so they are reported even when the resulting state was
+                        // seen before; only the expansion is skipped for merged states
+                        for f in fs {
+                            found.push(Found { hist: h2.clone(), finding: f });
+                        }
                         if new {
-                            for f in fs {
-                                found.push(Found { hist: h2.clone(), finding: f });
-                            }
                             next.push(h2);
                         }
                     }
